@@ -181,11 +181,12 @@ class Interp:
         p["ctx"].pop().__exit__(None, None, None)
         self.audit("exit_auto")
 
-    def op_sample(self, proc, sampler, explicit_path, crash_at):
+    def op_sample(self, proc, sampler, explicit_path, crash_at, resume_none=False):
         p = self._proc(proc)
         if p["fitted"] is None:
             return
-        self.ops.append(("sample", dict(proc=proc, sampler=sampler, explicit_path=explicit_path, crash_at=crash_at)))
+        self.ops.append(("sample", dict(proc=proc, sampler=sampler, explicit_path=explicit_path, crash_at=crash_at,
+                                        resume_none=resume_none)))
         kw = {}
         if sampler == "smc":
             kw.update(sampler_kwargs={"n_steps": 1}, rng=make_generator(7 + len(self.ops)), target_efficiency=0.8)
@@ -193,6 +194,12 @@ class Interp:
             kw.update(sampler_kwargs=dict(EMCEE_KW), target_efficiency=0.8)
         if explicit_path:
             kw["checkpoint_path"] = self.path
+        if sampler in ("smc", "emcee_smc"):
+            if resume_none:
+                # a FRESH run spelt with the keyword present (a driver that always writes resume_from=ckpt, ckpt None on
+                # a first start; also the only way to opt out of the checkpoint primed by resume_from_file)
+                kw["resume_from"] = None
+                self.col.fault("fresh_run_with_explicit_resume_from_None")
         m = p["model"]
         m.crash_like_at = None if crash_at is None else m.n_like_calls + crash_at
         m.crash_kind = "model_error"
@@ -292,9 +299,10 @@ def make_machine(interp_factory, workdir, col):
             self.do("exit_auto", proc=proc)
 
         @rule(proc=st.integers(0, 1), sampler=st.sampled_from(["smc", "smc", "importance", "emcee_smc"]), explicit_path=st.booleans(),
-              crash_at=st.one_of(st.none(), st.none(), st.integers(0, 6)))
-        def sample(self, proc, sampler, explicit_path, crash_at):
-            self.do("sample", proc=proc, sampler=sampler, explicit_path=explicit_path, crash_at=crash_at)
+              crash_at=st.one_of(st.none(), st.none(), st.integers(0, 6)),
+              resume_none=st.sampled_from([False, False, True]))
+        def sample(self, proc, sampler, explicit_path, crash_at, resume_none):
+            self.do("sample", proc=proc, sampler=sampler, explicit_path=explicit_path, crash_at=crash_at, resume_none=resume_none)
 
         @rule(in_context=st.booleans(), sampler=st.sampled_from([None, None, "smc", "emcee_smc"]), override_at=st.sampled_from(["ctor", "sample"]))
         def resume_and_sample(self, in_context, sampler, override_at):
